@@ -286,7 +286,7 @@ def pt_derived_check(case):
 
 # ------------------------------------------------------------------------------------------------ C03.pt_cvxpy
 def pt_cvx_cases(tier, seed):
-    nmax = 12 if tier == "quick" else 18
+    nmax = 12 if tier == "quick" else 16
     for rd in square_dims(tier):
         if ti.prod(rd) > nmax:
             continue
@@ -424,6 +424,7 @@ def realign_kron_check(case):
     va = [x for row in A.tolist() for x in row]  # row-major vectorisation
     vb = [x for row in B.tolist() for x in row]
     exp = [[a * b for b in vb] for a in va]
+    assert lb.gather_expected(X, ti.realignment_src(r1, r2, c1, c2)) == exp, "reference models disagree (index vs vec-vec^T oracle)"
     got, exc = run_re(X.copy(), [[r1, r2], [c1, c2]])
     if exc is not None:
         return viol("realignment raised on a Kronecker product: " + exc_text(exc), site=RE + ":exception", observed=exc_text(exc))
